@@ -657,6 +657,9 @@ def cost_truth(prog: Program) -> RuleResult:
     n_reads = 0
     for mod, qual, fn in prog.functions():
         key = mod.name.split(".", 1)[1] if "." in mod.name else mod.name
+        here = sum(1 for node in walk_no_nested(fn) if _is_cost_read(node))
+        if here:
+            flagged_before = len(res.findings)
         for node in walk_no_nested(fn):
             if _is_cost_read(node):
                 n_reads += 1
@@ -675,16 +678,16 @@ def cost_truth(prog: Program) -> RuleResult:
             if _is_cost_read(first) or _is_default_cost(fn, fallback, mod):
                 # a plain name on the left is only suspicious when the fallback is a default cost
                 res.fail(
-                    f"{key}:{qual}/cost-or-default",
+                    f"{key}:{qual}/cost-reads",
                     f"`{short(node, 80)}` falls back to `{short(fallback, 40)}` whenever the cost is falsy: an explicit "
                     "cost of 0 is replaced",
                     mod,
                     node,
                 )
+        if here and len(res.findings) == flagged_before:
+            res.ok(f"{key}:{qual}/cost-reads", f"{here} unit-cost read(s), none used as a truth value with a fallback")
     if n_reads < 15:
         raise AnalysisError(f"COST-TRUTH: only {n_reads} unit-cost reads found in the package")
-    if not res.findings:
-        res.ok("package/cost-reads", f"{n_reads} unit-cost reads, none used as a truth value with a fallback")
     return res
 
 
